@@ -371,6 +371,7 @@ void runReuseCase(uint64_t c, rt::Rng rng) {
         else if (ranOn == starterTid) { fail("not-a-new-thread", "restart", std::string(d) + ": start #" + std::to_string(k + 1) + " ran its callable on the starting thread"); bad = true; }
         else if (!t.isFinished() || t.isRunning()) { fail("not-finished-after-join", "restart", std::string(d) + ": after start #" + std::to_string(k + 1) + " and join(), isFinished() is false / isRunning() is true: completion is never reported"); bad = true; }
     }
+    if (rng.chance(300)) { Thread::sleep(1); Thread::sleep(std::chrono::microseconds(50)); }
     ++C.reusedThreadObjects;
     C.maxStartsOfOneObject = std::max<uint64_t>(C.maxStartsOfOneObject, (uint64_t) n);
     if (!bad) { rt::Hash h; h.add(0x7e05eULL); h.add((uint64_t) n); C.fps.push_back(h.get()); ++C.nontrivialCases; }
